@@ -37,6 +37,11 @@ func checkC04(r *run, c *MarshalToCase) (CaseInfo, error) {
 	var ci CaseInfo
 	m := &c.Model
 	p, err := m.packet()
+	if errors.Is(err, errAppbitsNotLegacy) {
+		ci.class("appbits-profile-not-legacy")
+
+		return ci, nil
+	}
 	if err != nil {
 		return ci, failf("model not constructible: %v", err)
 	}
